@@ -235,6 +235,33 @@ func (s *injStep) desc() interface{} {
 	return m
 }
 
+type cornerRequest struct {
+	names  []string
+	nilOCI bool
+}
+
+var cornerAt int
+
+// cornerRequests: request shapes which a random mixture seldom hits: the only miss is the empty string, misses before and
+// after a resolvable name, repetitions, the empty request, a nil OCI spec with every kind of request, eight, nine and ten
+// misses, blank-padded names.
+func cornerRequests(r1, r2 string) []cornerRequest {
+	miss := func(n int) []string {
+		var l []string
+		for i := 0; i < n; i++ {
+			l = append(l, fmt.Sprintf("vendor9.com/gpu=m%d", i))
+		}
+		return l
+	}
+	return []cornerRequest{
+		{names: []string{""}}, {names: []string{r1, ""}}, {names: []string{"", r1}}, {names: []string{" "}}, {names: []string{r1, r1}},
+		{names: []string{}}, {names: nil}, {names: []string{r1, "nope", r2}, nilOCI: true}, {names: []string{r1}, nilOCI: true}, {names: nil, nilOCI: true},
+		{names: []string{"", ""}, nilOCI: true}, {names: miss(8)}, {names: miss(9)}, {names: append(miss(9), r1)}, {names: append([]string{r1}, miss(10)...)},
+		{names: []string{r1, "nope"}}, {names: []string{"nope", r1}}, {names: []string{r1, "nope", r2, "nope"}}, {names: []string{r1 + " "}}, {names: []string{" " + r1, r1}},
+		{names: []string{"nope", "nope"}}, {names: []string{r1, r2, r1}}, {names: []string{"\n"}}, {names: []string{r1, "\t"}},
+	}
+}
+
 // injectVia: the default cache is asked through the package-level function
 var injectViaPackage bool
 
@@ -418,6 +445,19 @@ func genInjectSuite(r *hx.R, tier, scratch, prop string) (*hx.Suite, error) {
 			}
 			steps = append(steps, doInject(cache, hosts, init, names, image0, "", false))
 			nontrivial = hasRes && hasUnres
+			if len(resolvable) > 0 {
+				// requests of particular shapes, in turn, on every cache which resolves something
+				corners := cornerRequests(hx.Pick(r, resolvable), hx.Pick(r, resolvable))
+				for j := 0; j < 2; j++ {
+					c := corners[cornerAt%len(corners)]
+					cornerAt++
+					var o *oci.Spec
+					if !c.nilOCI {
+						o = randOCI(r, hosts, false)
+					}
+					steps = append(steps, doInject(cache, hosts, o, c.names, image0, "", false))
+				}
+			}
 		default: // C14
 			if len(resolvable) == 0 {
 				cleanup()
